@@ -98,7 +98,7 @@ class Prop:
         d = g.rng.choice([1, 2, 2, 3] if tier == 'quick' else [1, 2, 3, 3, 4])
         t = g.mutable_ty(d) if mutable else g.ty(d, composite_only=g.rng.random() < 0.85)
         v = None
-        if not mutable and g.rng.random() < 0.12:
+        if not mutable and g.rng.random() < 0.25:
             v = g.max_val(t)          # everything full: the longest valid encoding
         if v is None:
             v = g.val(t)
@@ -223,6 +223,26 @@ class C02(ValProp):
 
 class C03(ValProp):
     pid = 'C03'
+
+    def generate(self, g, tier, focus=None):
+        out = ValProp.generate(self, g, tier)
+        r = g.rng
+        # (nearly) full lists / vectors of variable-size elements nested in another composite: the enclosing
+        # decoder checks every part against the element type's size bounds
+        for _ in range(self.n(tier) // 5):
+            ve = r.choice([['Bl', r.choice([1, 8, 33])], ['list', 'u16', r.choice([1, 3, 17])], ['bl', r.choice([1, 9, 257])],
+                           ['union', 'none', ['list', 'u8', 5]], ['cont', 'u8', ['list', 'u8', 4]], ['list', ['Bl', 3], 2]])
+            inner = r.choice([['list', ve, r.choice([1, 2, 4, 5])], ['vec', ve, r.choice([1, 2, 3])]])
+            t = r.choice([['cont', 'u8', inner, 'u16'], ['list', inner, 3], ['vec', inner, 2], ['union', 'none', inner], ['cont', inner, inner]])
+            v = g.max_val(t)
+            if v is None:
+                continue
+            if r.random() < 0.5:
+                # nearly full: drop / shorten something at random by re-sampling with the same shape bias
+                w = g.val(t, 40)
+                v = w if r.random() < 0.5 else v
+            out.append(show(['val', t, v]))
+        return out
     rule = ('random (type, value) cases; decode_bytes(encode) and deserialize(stream at offset 5, exact scope, 3 trailing '
             'bytes): content, root, ==, consumed bytes, re-encoding; non-trivial/distinct as C01')
 
